@@ -65,12 +65,30 @@ func ruleC01_1(c *Ctx, ra, rb string) {
 	gen := w.Field("allocation", "Manager", "allocatePacketConn")
 	for _, st := range stores {
 		ok := false
+		isGenResult := func(v ssa.Value) bool {
+			call, idx := callOf(v)
+			if call == nil || idx != 0 || call.Call.IsInvoke() || call.Call.StaticCallee() != nil {
+				return false
+			}
+			_, f, isLoad := fieldLoad(call.Call.Value)
+			return isLoad && f == gen
+		}
 		if w.partOf(st.Parent(), create) {
-			if call, idx := callOf(st.Val); call != nil && idx == 0 && !call.Call.IsInvoke() && call.Call.StaticCallee() == nil {
-				if b, f, isLoad := fieldLoad(call.Call.Value); isLoad && f == gen {
-					_ = b
-					ok = true
+			if isGenResult(st.Val) {
+				ok = true
+			} else if ls, complete := w.sources(st.Val, st, nil); complete && len(ls) > 0 {
+				// through a helper's struct result: every source is the generator's socket or nil
+				all, n := true, 0
+				for i := range ls {
+					switch {
+					case len(ls[i].sel) == 0 && ls[i].mem == nil && isGenResult(ls[i].val):
+						n++
+					case isNilConst(ls[i].val):
+					default:
+						all = false
+					}
 				}
+				ok = all && n > 0
 			}
 		}
 		if ok {
